@@ -120,11 +120,15 @@ def normalise(events):
     """vsched trace of one execution -> lines for Swiss_Trace.tla"""
     out = []
     hook = has_hook(events)
+    fslots = []
     for e in events:
         k = e.get("k")
         if k == "reset":
             c = conf_of(e["params"])
             out.append(dict(DEF, k="reset", hook=hook, **c))
+            continue
+        if k == "fslots":
+            fslots += e["slots"]
             continue
         if k in SCHED:
             continue
@@ -132,7 +136,7 @@ def normalise(events):
             out.append(dict(DEF, k="end", status=e.get("status", "?")))
             continue
         if k == "final":
-            out.append(dict(DEF, k="final", ntab=e["ntab"], mbad=e["mirror_bad"], slots=[[s[0] * 1000 + s[1], s[2]] for s in e["slots"]]))
+            out.append(dict(DEF, k="final", ntab=e["ntab"], mbad=e["mirror_bad"], slots=[[s[0] * 1000 + s[1], s[2]] for s in fslots + e.get("slots", [])]))
             continue
         t = e.get("t", 0)
         if t <= 0:
@@ -185,8 +189,11 @@ MDEF = {"t": 0, "k": "", "op": "", "key": 0, "res": 0, "ins": False, "consumed":
 def monitor_lines(events):
     """vsched trace of one execution -> lines for Swiss_Mon.tla (L1 observables only)"""
     out = []
+    fslots = []
     for e in events:
         k = e.get("k")
+        if k == "fslots":
+            fslots += e["slots"]
         if k == "reset":
             c = conf_of(e["params"])
             cap = 0 if c["head"] == 0 else c["head"]
@@ -201,7 +208,7 @@ def monitor_lines(events):
         elif k == "keq" and e.get("t", 0) > 0:
             out.append(dict(MDEF, k="keq", t=e["t"], i=_code(e["ord"], e["idx"]), key=e["key"], valid=e["valid"]))
         elif k == "final":
-            out.append(dict(MDEF, k="final", slots=[[s[0] * 1000 + s[1], s[2], s[4]] for s in e["slots"]]))
+            out.append(dict(MDEF, k="final", slots=[[s[0] * 1000 + s[1], s[2], s[4]] for s in fslots + e.get("slots", [])]))
         elif k == "ffind":
             out.append(dict(MDEF, k="ffind", key=e["key"], res=_code(e["ord"], e["idx"])))
         elif k == "end":
